@@ -332,7 +332,17 @@ def c19(tier, seed):
     return c.finish()
 
 
-PROPS = {"C19": c19, "C17": c17, "C18": c18, "C16": c16, "C15": c15, "C14": c14, "C11": c11, "C12": c12, "C10": c10, "C13": c13, "C06": c06, "C08": c08, "C09": c09, "C01": c01, "C02": c02, "C03": c03, "C04": c04, "C05": c05}
+def c20(tier, seed):
+    c = Check("C20", tier, seed)
+    c.rule = "MC (PcmMC): pcm_xfer transcribed, 5-7 bytes in periods of 1-2, ring of 2-3 slots, device completing in order: chunks consecutive, <= period, <= capacity outstanding, terminates with success (liveness under fairness); negative configuration with an out-of-order device yields WrongToken with chains posted (known finding D11); traces: entropy, clock (every status, clock ids 0..65535, all type/smearing codes), 9P (request/response sizes, bad size header), GPU (resolution, framebuffer setup / re-setup, flush, cursor setup/move, EDID with/without the feature; an error response injected at any command of any operation; DMA ledger of backing memory) and sound (control requests with set_up prefix, parameter validation, PCM blocking transfers with arbitrary frame counts vs period, non-blocking transfers completed in any order, error statuses) on all transports and policies, every decoded request field compared with the caller's parameters"
+    c.assumptions = ["request decoding in harness/src/scen_cmd.rs follows the wire layouts of Virtio 1.2 5.7 / 5.14 and the rtc / 9p device definitions", "EDID parsing is covered by the repository's own vectors only (see DESIGN.md)"]
+    mc(c, ["Pcm_inorder", "Pcm_inorder_b"], tier, module="PcmMC", negative=["Pcm_bug_ooo_device"])
+    device_family(c, "cmd", "CmdTrace", "CmdTrace.cfg", seed, tier, max_events=400)
+    device_family(c, "cmd", "CmdTrace", "CmdTrace.cfg", seed, tier, max_events=1, extra=["ooo"], queues=False)
+    return c.finish()
+
+
+PROPS = {"C20": c20, "C19": c19, "C17": c17, "C18": c18, "C16": c16, "C15": c15, "C14": c14, "C11": c11, "C12": c12, "C10": c10, "C13": c13, "C06": c06, "C08": c08, "C09": c09, "C01": c01, "C02": c02, "C03": c03, "C04": c04, "C05": c05}
 
 
 def main():
